@@ -258,3 +258,29 @@ also6("C19", "the checker is started iff HealthCheck.Disabled is false and stopp
 also6("C20", "every fallible step around an operation (configuration snapshot, id resolution, dispatch, AsyncOp.Wait, errgroup Wait) has its error reported on every path on which it can be non-nil (a use under err == nil is not a report); "
       "WHOLE-WRAPPER EVALUATION: each of the 13 single-operation wrappers is evaluated with its buffered channels kept concretely over the fate of the operation (completed | refused at dispatch | completed with the server's error and nil results | never completed): "
       "nil with the server's answer ⇔ completed without error, a non-nil error otherwise, never blocked on its result channel, never a nil result dereferenced.")
+
+
+# ---- fifth and sixth rounds of seeded changes
+def also7(pid, text):
+    t, x, r = CLAIMS[pid]
+    CLAIMS[pid] = (t, x + " ALSO DECIDED (fifth/sixth seeded rounds): " + text, r)
+
+also7("C01", "a backend is only ever handed Checkpoint.Save's dump (every invocation of Metadata.Save is that call or a forwarding wrapper); a checkpoint key is a function of group name and vBucket id of the call.")
+also7("C02", "the backends store exactly what they are handed; the read-only wrapper returns the wrapped store's (documents, exists, error) untouched (exhaustive).")
+also7("C03", "the user's listener is called exactly once per event (closures and deferred functions included); the id→name table is read-only once built; the library never writes into an event (no store into an event struct, no mutation through reflection); the observers map is written only on Open's path; no lossy wake-up (non-blocking send only on buffered channels).")
+also7("C04", "the position gauge is the ranged offset's own SeqNo.")
+also7("C05", "Commit is Stream.Save unconditionally; non-document events reach the position writer whenever the gate passes; dirty marks are raised only by the position writer.")
+also7("C06", "persisted documents are what Save built (no merge with an older file, no second encoding); event wrappers are built only by the handler of their own kind.")
+also7("C07", "error classes of the observe callback are discovered from its errors.Is calls (every class but the three transient ones must be fatal); the absent mark is written only by the record's setter, called only where the cluster map is consulted; the observer holding the threshold survives a re-open; no lossy wake-up.")
+also7("C08", "the checkpoint written after a rollback is built from the tracked offset at save time; a replayed marker is installed whenever the gate passes and an out-of-snapshot event is fatal.")
+also7("C09", "the configured member number is never rewritten by defaulting; a reopen goes through the current position map; the discovery is closed only by the client; membership publishes are synchronous; a member the live list no longer contains stops.")
+also7("C10", "a role callback touches the registry only through its own steps; Reconnect dials whatever the flag says; the Couchbase numbering step evaluated whole (1..3 instances, every id-equality pattern); identity parse failures fatal; the liveness comparison's linear form (interval + tolerance + lastHeartbeat − now > 0); join times are nanosecond clock readings or copies; every membership Publish is a plain call.")
+also7("C11", "one opener per element of the latest range; Load never replaces a loaded document; the read-only wrapper forwards every Load; the follower's handler announces synchronously; delivery stays inside the observer's call chain; publishes are synchronous.")
+also7("C13", "Close() only signals (no WaitGroup wait, receive, lock, sleep or blocking select); leaderElection.Stop makes no call on the service discovery; the observe ticker is assigned only where the loop starts.")
+also7("C14", "the listener hands every document event on under no predicate of its own, synchronously; every call of the position writer is one of the known kinds; dirty marks have one writer.")
+also7("C15", "Rebalance closes with Close(false); an unresolved ${VAR} stays a literal; the read-only wrapper does not hide a failed load; the Couchbase membership refuses a non-Couchbase metadata configuration.")
+also7("C16", "the descriptor field X carries the metric name X (no name twice); a reopen keeps the observer and its counters; the discovery's metric record is assigned only by the constructor.")
+also7("C17", "the logging default obeys the same zero-guard rule; a store through a pointer into the configuration is not a default (set-when-unset helpers are recognised at their call sites); a size string's parse failure is an error on the failing branch; no configuration type decodes itself.")
+also7("C18", "the parser's error branches are taken exactly where the Atoi failed (polarity); IsMagma/IsEphemeral read the fields decoded from storageBackend/bucketType.")
+also7("C19", "whichever case other than cancellation wakes the retry wait, the failure count goes on (every select case enumerated); every background loop has a stop the close path reaches.")
+also7("C20", "derived membership settings are a fresh record per call; the registration ladder reports success only after a confirmed write; the concurrent checkpoint read waits for exactly its workers; a channel workers report on has room for every worker; defaulting never rewrites a configured timeout.")
